@@ -408,6 +408,7 @@ fn panicking_consumer<K: Elem, V: Elem>(c: &mut Ctx, rng: &mut Rng) {
     for _ in 0..4 {
         for which in 0..2u64 {
             c.evaluations += 1;
+            let blocks0 = crate::ckalloc::counters().live_blocks;
             let m: M<K, V> = big_map(n, rng.chance(1, 2), rng);
             let len = m.len();
             let k = rng.below(len as u64 + 1) as i64;
@@ -443,6 +444,9 @@ fn panicking_consumer<K: Elem, V: Elem>(c: &mut Ctx, rng: &mut Rng) {
             m.insert(K::make(0, 4), V::make(0, 4));
             m.clear();
             drop(m);
+            // the table's block went back to the allocator although the consumer panicked
+            let blocks1 = crate::ckalloc::counters().live_blocks;
+            crate::check!(blocks1 == blocks0, "{}: {} block(s) are still allocated after the map and the parallel iterator are gone", what, blocks1 as i64 - blocks0 as i64);
             let per = K::TRACKED as u64 + V::TRACKED as u64;
             if per > 0 {
                 let live1 = elem::live_now();
@@ -665,6 +669,33 @@ fn equivalences(c: &mut Ctx, rng: &mut Rng) {
         let sa2 = sa.clone();
         crate::check!(sa.par_eq(&sa2), "set par_eq false on a clone");
     });
+    // par_extend / from_par_iter of long inputs that repeat every key (far apart): the LAST value of a key wins, exactly as
+    // in a sequential extend; few threads, so that a single job collects more than any intermediate buffer holds
+    if !c.is_miri() && rng.chance(1, 6) {
+        let big_n = *rng.pick(&[70_000u32, 150_000, 300_000]);
+        let keys = big_n / 3;
+        let pairs: Vec<(u32, u32)> = (0..big_n).map(|i| (i % keys, i)).collect();
+        let p2 = pool(*rng.pick(&[1usize, 1, 2, 3]));
+        let mut seq: M<P8, P8> = M::with_hasher_in(bh, CkAlloc);
+        seq.extend(pairs.iter().map(|(k, v)| (P8::make(*k, 0), P8::make(*v, 0))));
+        let mut par: M<P8, P8> = M::with_hasher_in(bh, CkAlloc);
+        p2.install(|| par.par_extend(pairs.par_iter().map(|(k, v)| (P8::make(*k, 0), P8::make(*v, 0)))));
+        let from: hashbrown::HashMap<P8, P8, PlanBH> = p2.install(|| pairs.par_iter().map(|(k, v)| (P8::make(*k, 0), P8::make(*v, 0))).collect());
+        let mut wrong = 0usize;
+        let mut first = None;
+        for (k, v) in seq.iter() {
+            let a = par.get(k).map(|x| x.id());
+            let b = from.get(k).map(|x| x.id());
+            if a != Some(v.id()) || b != Some(v.id()) {
+                wrong += 1;
+                first.get_or_insert((k.id(), v.id(), a, b));
+            }
+        }
+        crate::check!(par.len() == seq.len() && from.len() == seq.len(), "par_extend / from_par_iter of {} pairs hold {} / {} keys, sequential extend {}", big_n, par.len(), from.len(), seq.len());
+        crate::check!(wrong == 0, "par_extend / from_par_iter of {} pairs over {} keys: {} keys have another value than after a sequential extend (first: {:?})", big_n, keys, wrong, first);
+        c.bump("long_parallel_extends");
+        c.evaluations += 1;
+    }
     // the relations on structured pairs (strict subset / superset / equal / one element exchanged), also for sets far
     // above any sequential cut-off, and with both operands being the same object
     {
